@@ -1083,6 +1083,15 @@ impl<'a> Gen<'a> {
         }
         let mut args = Vec::new();
         let mut prev_kind = Any;
+        // Below a number-as-string function no string is glued together: (concat "1e" "999999999")
+        // is a decimal with an exponent of 10^9, whose arithmetic is resource exhaustion (the
+        // properties bound decimal exponents by 10^3)
+        let nas_guard = s.f.starts_with('"') && !self.cfg.exclude.contains(&"concat");
+        if nas_guard {
+            self.cfg.exclude.push("concat");
+            self.cfg.exclude.push("join");
+        }
+        let args_result = (|| {
         for (i, a) in arg_kinds.iter().enumerate() {
             if (s.f == "range" && i == 0) || (s.f == "sub" && i == 2) {
                 args.push(self.size_arg(env));
@@ -1158,6 +1167,11 @@ impl<'a> Gen<'a> {
                 Name => Expr::Lit("\"x\"".into()),
             };
             args.push(e);
+        }
+        })();
+        let _ = args_result;
+        if nas_guard {
+            self.cfg.exclude.retain(|x| *x != "concat" && *x != "join");
         }
         Expr::call(s.f, args)
     }
